@@ -579,7 +579,9 @@ fn err_name(e: &DocError) -> &'static str {
     _ => "Other",
   }
 }
-fn apply(doc: &mut CoreDocument, op: &Op) -> Result<String, vx::Panicked> {
+/// `alt` = the equivalent spelling of the same call (used on the re-read twin of oracle (viii)): `remove_method`
+/// instead of `remove_method_and_scope` (flag `Some(_,body)`), a full id passed as `&str` instead of `&DIDUrl`.
+fn apply(doc: &mut CoreDocument, op: &Op, alt: bool) -> Result<String, vx::Panicked> {
   let unit = |r: Result<(), DocError>| match r {
     Ok(()) => "Ok".to_string(),
     Err(e) => format!("Err({})", err_name(&e)),
@@ -593,19 +595,23 @@ fn apply(doc: &mut CoreDocument, op: &Op) -> Result<String, vx::Panicked> {
       let m = METHODS[id as usize][variant as usize].clone();
       guard(|| doc.insert_method(m, scope_of(scope))).map(unit)
     }
+    Op::RemoveMethod { id } if alt => guard(|| doc.remove_method(&URLS[id as usize])).map(|r| match r {
+      Some(m) => format!("Some(_,{:?})", body_of(&m)),
+      None => "None".to_string(),
+    }),
     Op::RemoveMethod { id } => guard(|| doc.remove_method_and_scope(&URLS[id as usize])).map(|r| match r {
       Some((m, s)) => flag_some(scope_code(s), &body_of(&m)),
       None => "None".to_string(),
     }),
     Op::Attach { q, rel } => {
-      if q < NID {
+      if q < NID && !alt {
         guard(|| doc.attach_method_relationship(&URLS[q as usize], rel_of(rel))).map(boolean)
       } else {
         guard(|| doc.attach_method_relationship(QUERIES[q as usize].as_str(), rel_of(rel))).map(boolean)
       }
     }
     Op::Detach { q, rel } => {
-      if q < NID {
+      if q < NID && !alt {
         guard(|| doc.detach_method_relationship(&URLS[q as usize], rel_of(rel))).map(boolean)
       } else {
         guard(|| doc.detach_method_relationship(QUERIES[q as usize].as_str(), rel_of(rel))).map(boolean)
@@ -929,7 +935,7 @@ fn step(sink: &Sink, s: &St, op: Op, count_depth: bool) -> Option<St> {
   let pred = predict(&s.abs, &op);
 
   let mut doc = s.doc.clone();
-  let flag = match apply(&mut doc, &op) {
+  let flag = match apply(&mut doc, &op, false) {
     Ok(f) => f,
     Err(p) => {
       sink.col.violation(&format!("CoreDocument::{name}|{}", p.key()), &format!("{} on {}: {}", op.describe(), s.fp, p.msg), &mk_case(&hist));
@@ -937,14 +943,21 @@ fn step(sink: &Sink, s: &St, op: Op, count_depth: bool) -> Option<St> {
       return None;
     }
   };
-  let fp = match to_fp(&doc) {
-    Ok(s) => s,
-    Err(e) => {
-      sink.col.violation(&format!("CoreDocument::{name}|result-not-serialisable"), &e, &mk_case(&hist));
-      return None;
+  // An operation that leaves the document value untouched (structural equality of every field) leaves its JSON and
+  // its entry sets untouched: they are taken over from the pre-state instead of being recomputed.
+  let same_value = doc == s.doc;
+  let fp = if same_value {
+    s.fp.clone()
+  } else {
+    match to_fp(&doc) {
+      Ok(s) => s,
+      Err(e) => {
+        sink.col.violation(&format!("CoreDocument::{name}|result-not-serialisable"), &e, &mk_case(&hist));
+        return None;
+      }
     }
   };
-  let abs = abstract_doc(&doc);
+  let abs = if same_value { s.abs.clone() } else { abstract_doc(&doc) };
   let abs_sorted = abs.sorted();
   let label = format!("{name}:{}{}", if class(&flag) == "Some" { "Some" } else { flag.as_str() }, if pred.ambiguous { " [fragment denotes several ids]" } else { "" });
   sink.tally.add(&label, 1);
@@ -988,13 +1001,18 @@ fn step(sink: &Sink, s: &St, op: Op, count_depth: bool) -> Option<St> {
   let case_lazy = mk_case(&hist);
   // A transition that leaves the document identical (same value, same JSON) ends in the very state whose
   // state oracles (i)-(iv), (vii) were evaluated when it was first reached: they are inherited, not recomputed.
-  let identical = fp == s.fp && doc == s.doc;
+  let identical = same_value;
   let wire = if identical { s.wire.clone() } else { check_state(sink, name, &doc, &abs, &fp, &case_lazy)? };
   // (viii) the same operation on the pre-state as read from the wire
   let mut twin = s.wire.clone();
-  match apply(&mut twin, &op) {
+  match apply(&mut twin, &op, true) {
     Ok(f2) => {
-      if f2 != flag {
+      // `remove_method` does not report the scope
+      let live = match (&op, flag.split_once(',')) {
+        (Op::RemoveMethod { .. }, Some((_, rest))) if flag.starts_with("Some(") => format!("Some(_,{rest}"),
+        _ => flag.clone(),
+      };
+      if f2 != live {
         sink.col.violation(&format!("CoreDocument::{name}|wire-differential|result-differs"), &format!("{} on {}: live {flag}, re-read {f2}", op.describe(), s.fp), &case_lazy);
         return None;
       }
@@ -1168,9 +1186,10 @@ fn generate(ctx: &Ctx) {
     // (B) "same id, different body" + the rich deserialised start document
     run_part(ctx, "B closure: 2 method ids with 2 bodies each, 2 relationships, 1 service, rich start document", 2, universe(&[4], &[A_K1, A_K2], &[(A_K1, 1), (A_K2, 1)], &two, &[1, 2], &[A_K1], false), None);
     // (C) all six scopes, depth-capped
-    run_part(ctx, "C depth 3: 3 method ids, all six scopes, 1 service", 3, universe(&[0, 2], &[A_K1, B_K1, B_K2], &[], &all_scopes, &all_rels, &[A_K1], true), Some(4));
+    run_part(ctx, "C depth 4: 3 method ids, all six scopes, 1 service", 3, universe(&[0, 2], &[A_K1, B_K1, B_K2], &[], &all_scopes, &all_rels, &[A_K1], true), Some(5));
   } else {
-    run_part(ctx, "A closure: 4 method ids, 2 relationships, 2 services", 1, universe(&[0, 1, 2, 3, 5], &[A_K1, A_K2, B_K1, B_K2], &[(A_K1, 2)], &two, &[1, 2], &[A_S1, A_K1], false), None);
+    run_part(ctx, "A closure: 4 method ids, 2 relationships, 1 service", 1, universe(&[0, 1, 2, 3, 5], &[A_K1, A_K2, B_K1, B_K2], &[(A_K1, 2)], &two, &[1, 2], &[A_K1], false), None);
+    run_part(ctx, "A2 closure: 3 method ids, 2 relationships, 2 services", 4, universe(&[0, 1, 2, 3, 5], &[A_K1, A_K2, B_K1], &[(A_K1, 2)], &two, &[1, 2], &[A_S1, A_K1], false), None);
     run_part(ctx, "B closure: 3 method ids with 2 bodies each, 2 relationships, 1 service, rich start document", 2, universe(&[4, 0], &[A_K1, A_K2, B_K1], &[(A_K1, 1), (A_K2, 1), (B_K1, 1)], &two, &[1, 2], &[A_K1], false), None);
     run_part(ctx, "C depth 4: 4 method ids, all six scopes, 2 services", 3, universe(&[0, 1, 2, 3, 4], &[A_K1, A_K2, B_K1, B_K2], &[(A_K1, 1)], &all_scopes, &all_rels, &[A_S1, A_K1], true), Some(5));
   }
